@@ -37,6 +37,9 @@ type c08Step struct {
 	N        int        `json:"n,omitempty"`    // partial: number of bytes sent first
 	Kind     string     `json:"kind,omitempty"` // undecodable kind
 	Hex      string     `json:"hex,omitempty"`  // garbage bytes
+	// Pad: request / pipeline: the requests carry this many bytes of filler (client correlation value), so that message
+	// sizes vary from one request to the next on a connection (below / above the receive buffer's steps)
+	Pad int `json:"pad,omitempty"`
 	// During: act immediately after the previous step, without letting (fake) time pass first
 	During bool `json:"during,omitempty"`
 }
@@ -93,6 +96,19 @@ func c08Executor() *kmipserver.BatchExecutor {
 		return &payloads.ActivateResponsePayload{UniqueIdentifier: req.UniqueIdentifier}, nil
 	}))
 	return exec
+}
+
+// c08RequestPadded is c08Request with pad bytes of filler in the header's client correlation value.
+func c08RequestPadded(seq int, outcomes []string, pad int) []byte {
+	if pad <= 0 {
+		return c08Request(seq, outcomes)
+	}
+	var m kmip.RequestMessage
+	if err := ttlv.UnmarshalTTLV(c08Request(seq, outcomes), &m); err != nil {
+		panic(err)
+	}
+	m.Header.ClientCorrelationValue = strings.Repeat("p", pad)
+	return ttlv.MarshalTTLV(&m)
 }
 
 func c08Request(seq int, outcomes []string) []byte {
@@ -194,6 +210,7 @@ type expectation struct {
 
 type peer struct {
 	c              *memnet.Conn
+	rw             io.ReadWriter // what the client reads and writes through (a TLS client connection over c); nil: c itself
 	mu             sync.Mutex
 	responses      []*ttlvref.Node
 	rawResp        [][]byte
@@ -211,6 +228,13 @@ type peer struct {
 	rejected       bool // the server's connect hook refused this connection: it must be closed by the server
 }
 
+func (p *peer) stream() io.ReadWriter {
+	if p.rw != nil {
+		return p.rw
+	}
+	return p.c
+}
+
 func (p *peer) collect() {
 	for {
 		if p.stalled.Load() {
@@ -222,7 +246,7 @@ func (p *peer) collect() {
 			}
 		}
 		hdr := make([]byte, 8)
-		if _, err := io.ReadFull(p.c, hdr); err != nil {
+		if _, err := io.ReadFull(p.stream(), hdr); err != nil {
 			p.mu.Lock()
 			p.eof, p.readErr = true, err
 			p.mu.Unlock()
@@ -231,7 +255,7 @@ func (p *peer) collect() {
 		total, _ := ttlvref.ItemLen(hdr)
 		buf := make([]byte, total)
 		copy(buf, hdr)
-		if _, err := io.ReadFull(p.c, buf[8:]); err != nil {
+		if _, err := io.ReadFull(p.stream(), buf[8:]); err != nil {
 			p.mu.Lock()
 			p.eof, p.readErr = true, err
 			p.mu.Unlock()
@@ -485,7 +509,7 @@ func c08Bubble(c c08Case) (res c08Result) {
 			var buf []byte
 			for _, r := range s.Requests {
 				seq++
-				buf = append(buf, c08Request(seq, r)...)
+				buf = append(buf, c08RequestPadded(seq, r, s.Pad)...)
 				p.mu.Lock()
 				p.expect = append(p.expect, expectation{kind: "batch", outcomes: r, seq: seq})
 				p.mu.Unlock()
@@ -729,6 +753,7 @@ func drawC08(rt *rapid.T) c08Case {
 			s.Op, s.Kind = "idle", rapid.SampledFrom([]string{"6s", "61s", "5m", "2h"}).Draw(rt, "idle")
 		case 0, 1, 2, 3, 4:
 			s.Op, s.Requests = "request", [][]string{drawOutcomes(rt)}
+			s.Pad = rapid.SampledFrom([]int{0, 0, 0, 200, 450, 700, 1500, 3000, 9000, 70000}).Draw(rt, "pad")
 		case 5, 6:
 			s.Op = "pipeline"
 			k := rapid.IntRange(2, 4).Draw(rt, "pipelined")
